@@ -28,6 +28,53 @@ type jobRes struct {
 	Trees   []string          `json:"trees"` // one per "parse"
 	Outs    map[string]string `json:"outs"`
 	Panic   string            `json:"panic,omitempty"`
+	// Refs[k]: for the k-th "parse" whose parser was built EARLIER and whose builder was changed in
+	// between, the result of a parser built from a fresh builder in the build-time configuration and
+	// run at once ("" when the parse has no such history)
+	Refs []string `json:"refs"`
+}
+
+func isChange(kind string) bool {
+	switch kind {
+	case "tok", "prefix", "infix", "postfix", "inst", "mode":
+		return true
+	}
+	return false
+}
+
+// buildTimeRefs computes Refs for a job script (see jobRes.Refs).
+func buildTimeRefs(j jobJ) []string {
+	refs := []string{}
+	lastBuild, changed := -1, false
+	for k, op := range j.Ops {
+		kind, _ := op[0].(string)
+		switch {
+		case kind == "build":
+			lastBuild, changed = k, false
+		case isChange(kind):
+			changed = true
+		case kind == "parse":
+			if lastBuild >= 0 && changed {
+				ops := [][]any{}
+				for _, o := range j.Ops[:lastBuild+1] {
+					if kd, _ := o[0].(string); isChange(kd) {
+						ops = append(ops, o)
+					}
+				}
+				ops = append(ops, []any{"parse"})
+				r := runJob(jobJ{Src: j.Src, Ops: ops}, func() {})
+				if len(r.Trees) > 0 {
+					refs = append(refs, r.Trees[0])
+				} else {
+					refs = append(refs, "panic:"+r.Panic)
+				}
+			} else {
+				refs = append(refs, "")
+			}
+			lastBuild, changed = -1, false // "parse" consumes the parser
+		}
+	}
+	return refs
 }
 
 type jobState struct {
@@ -50,12 +97,13 @@ func tokRef(st *jobState, a string) token.Type {
 // runJob executes the script; gate() is called before every API call and before every token the
 // job's parser pulls (so that a scheduler can interleave jobs at call and at token granularity).
 func runJob(j jobJ, gate func()) (res jobRes) {
-	res = jobRes{Replies: []string{}, Trees: []string{}, Outs: map[string]string{}}
+	res = jobRes{Replies: []string{}, Trees: []string{}, Outs: map[string]string{}, Refs: []string{}}
 	defer func() {
 		if p := recover(); p != nil {
 			res.Panic = fmt.Sprintf("%v", p)
 		}
 	}()
+	defer func() { res.Refs = buildTimeRefs(j) }()
 	st := &jobState{byName: map[string]token.Type{}, byChar: map[byte]token.Type{}}
 	st.lb = lexer.NewBuilder()
 	parsing := false
